@@ -23,6 +23,22 @@ FA, FB = 0xA5, 0x3C
 STATE_FIELDS = ['qpos', 'qvel', 'act', 'history', 'ctrl', 'qfrc_applied', 'xfrc_applied', 'mocap_pos', 'mocap_quat',
                 'eq_active', 'userdata']
 SENSOR_FIELDS = {'sensordata'}
+INPUT_FIELDS = ['ctrl', 'qfrc_applied', 'xfrc_applied', 'mocap_pos', 'mocap_quat', 'eq_active', 'userdata']
+
+
+def keep(d, fields):
+  return {f: np.array(getattr(d, f)).copy() for f in fields}
+
+
+def unchanged(d, before, what, bucket):
+  """the call must leave these components of mjData bit-identical (inputs for every call; the whole state for forward/inverse)"""
+  for f, x in before.items():
+    y = np.array(getattr(d, f))
+    if not np.array_equal(y.view(np.uint8), x.view(np.uint8)):
+      raise Violation('%s modified %s (first change at flat index %d: %r -> %r)' % (
+          what, f, int(np.nonzero(y.ravel() != x.ravel())[0][0]) if np.any(y.ravel() != x.ravel()) else -1,
+          x.ravel()[np.nonzero(y.ravel() != x.ravel())[0][0]].item() if np.any(y.ravel() != x.ravel()) else None,
+          y.ravel()[np.nonzero(y.ravel() != x.ravel())[0][0]].item() if np.any(y.ravel() != x.ravel()) else None), bucket=bucket + ':' + f)
 
 
 def cmp_all(lib, m, a, b, pa, pb, where, skip=()):
@@ -105,10 +121,15 @@ def _run_case(ck, lib, case):
       dc.poison_arena(lib, a, FA)
       dc.poison_arena(lib, b, FB)
       set_inputs(m, a, iseed + i)
+      ina = keep(a, INPUT_FIELDS)
       lib.mj_step(m, a)
       lib.mj_step1(m, b)
       set_inputs(m, b, iseed + i)
+      inb = keep(b, INPUT_FIELDS)
       lib.mj_step2(m, b)
+      if not (dc.warning_numbers(lib, a).sum() or dc.warning_numbers(lib, b).sum()):
+        unchanged(a, ina, 'mj_step', 'inputs')
+        unchanged(b, inb, 'mj_step2', 'inputs')
       if dc.warning_numbers(lib, a).sum() or dc.warning_numbers(lib, b).sum():
         # a bad-state warning fired: autoreset wipes inputs set before mj_step but not those set after mj_step1
         # (documented reset semantics, property C30) -> the equivalence is only claimed for regular steps
@@ -137,12 +158,16 @@ def _run_case(ck, lib, case):
     dc.poison_arena(lib, b, FB)
     # "the full call" = the same entry point with no stage skipped (and the same skipsensor argument: sensors also
     # trigger lazily evaluated arrays such as subtree_linvel/cacc, so both sides must agree on whether they run)
+    sta, stb = keep(a, STATE_FIELDS), keep(b, STATE_FIELDS)
     if inv:
       lib.mj_inverseSkip(m, a, stage, skipsensor)
       lib.mj_inverseSkip(m, b, E.mjSTAGE_NONE, skipsensor)
     else:
       lib.mj_forwardSkip(m, a, stage, skipsensor)
       lib.mj_forwardSkip(m, b, E.mjSTAGE_NONE, skipsensor)
+    # forward / inverse (skipped or not) compute derived quantities only: the state and the inputs stay bit-identical
+    unchanged(a, sta, 'mj_%sSkip(stage)' % ('inverse' if inv else 'forward'), 'pure')
+    unchanged(b, stb, 'mj_%sSkip(NONE)' % ('inverse' if inv else 'forward'), 'pure')
     skip = ()
     # mjContact.H ("cone Hessian, set by mj_constraintUpdate") is solver scratch: it is written only for an elliptic contact in
     # the middle (cone) zone when the Newton solver asks for it. Elsewhere the skip side legitimately keeps the H of its earlier
